@@ -40,7 +40,7 @@ func ruleEANLen(c *Ctx) {
 func ruleEANCheckValue(c *Ctx) {
 	const R = "V1-EAN-CHECKVALUE"
 	c.Doc(R, "at every New1DCodeIntCheckSum* call in ean, on every feasible incoming path (LenSet feasibility: content length 8 or 13), the checksum argument is utils.RuneToInt of the rune that is the last character of the content argument")
-	c.Floor(R, 4)
+	c.Floor(R, 2)
 	fn := c.P.Func("ean.EncodeWithColor")
 	if fn == nil {
 		c.Anchor(R, "ean.EncodeWithColor", "function not found")
@@ -121,24 +121,36 @@ func helperPairCases(p *Prog, fn *ssa.Function, ctor *ssa.Call, content, sum ssa
 	if cal == nil || !isRepoFunc(cal) || cal.Blocks == nil || cal.Pkg != fn.Pkg || cal.Object() == nil || cal.Object().Exported() {
 		return nil
 	}
-	// the error result, if the caller checks it before the constructor
-	errIdx := -1
+	// the status result (error or success flag), if the caller checks it before the constructor
+	errIdx, okIdx := -1, -1
 	res := cal.Signature.Results()
 	for i := 0; i < res.Len(); i++ {
 		if isErrorType(res.At(i).Type()) {
 			errIdx = i
+		} else if isBoolType(res.At(i).Type()) && i != ec.Index && i != es.Index {
+			okIdx = i
 		}
 	}
-	errChecked := false
-	if errIdx >= 0 {
-		for _, r := range *hc.Referrers() {
-			if ex, ok := r.(*ssa.Extract); ok && ex.Index == errIdx {
-				n := NewNormer(p)
-				n.Bind[ex] = "err"
-				imp, _, _ := CondRelation(n.ReachCond(fn, nil, ctor.Block()), &Cond{Kind: CBool, Name: "Eq(err,nil)"})
-				errChecked = imp
-			}
+	errChecked, okChecked := false, false
+	for _, r := range *hc.Referrers() {
+		ex, ok := r.(*ssa.Extract)
+		if !ok {
+			continue
 		}
+		n := NewNormer(p)
+		rc := n.ReachCond(fn, nil, ctor.Block())
+		if ex.Index == errIdx {
+			n.Bind[ex] = "err"
+			imp, _, _ := CondRelation(n.ReachCond(fn, nil, ctor.Block()), &Cond{Kind: CBool, Name: "Eq(err,nil)"})
+			errChecked = imp
+		}
+		if ex.Index == okIdx {
+			n.Bind[ex] = "okflag"
+			n.NoInline[p.FuncName(cal)] = true
+			imp, _, _ := CondRelation(n.ReachCond(fn, nil, ctor.Block()), &Cond{Kind: CBool, Name: "okflag"})
+			okChecked = imp
+		}
+		_ = rc
 	}
 	la := NewLenAnalysis(cal)
 	var out []pairCase
@@ -146,6 +158,11 @@ func helperPairCases(p *Prog, fn *ssa.Function, ctor *ssa.Call, content, sum ssa
 		pc := pairCase{content: ret.Results[ec.Index], sum: ret.Results[es.Index], la: la, blk: ret.Block()}
 		if errChecked && !isNilConst(ret.Results[errIdx]) {
 			pc.infeasible = "the helper returns an error here and the caller returns before the constructor"
+		}
+		if okChecked {
+			if k, isK := ret.Results[okIdx].(*ssa.Const); isK && k.Value != nil && k.Value.String() == "false" {
+				pc.infeasible = "the helper reports failure here and the caller returns before the constructor"
+			}
 		}
 		out = append(out, pc)
 	}
